@@ -195,9 +195,15 @@ Qed.
 Lemma tasks_propagate_task fuel : forall s t, tasks (propagate_task fuel s t) = tasks s.
 Proof.
   induction fuel as [|fuel IH]; intros s t; cbn [propagate_task].
-  - destruct (negb (is_prio_task s t)); auto. destruct (task_is_runnable s t); auto.
+  - destruct (negb (is_prio_task s t)); auto.
+    set (s0 := if task_is_runnable s t then task_reschedule s t else s).
+    assert (E0 : tasks s0 = tasks s) by (unfold s0; destruct (task_is_runnable s t); auto).
+    clearbody s0. rewrite <- E0. clear E0 s. rename s0 into s.
     destruct (twaiting (gett s t)); auto.
-  - destruct (negb (is_prio_task s t)); auto. destruct (task_is_runnable s t); auto.
+  - destruct (negb (is_prio_task s t)); auto.
+    set (s0 := if task_is_runnable s t then task_reschedule s t else s).
+    assert (E0 : tasks s0 = tasks s) by (unfold s0; destruct (task_is_runnable s t); auto).
+    clearbody s0. rewrite <- E0. clear E0 s. rename s0 into s.
     destruct (twaiting (gett s t)) as [l|]; auto.
     set (s1 := match lowner (getl s l) with Some o => propagate_task fuel s o | None => s end).
     assert (E1 : tasks s1 = tasks s) by (unfold s1; destruct (lowner (getl s l)); auto).
